@@ -382,6 +382,39 @@ def run(ctx):
     for _ in range(rounds):
         if run_history(real, rng, rng.randint(2, 7), t):
             break
+    if not t.fail:
+        # sizes no small example reaches: 4000 packages (about 200 kB of input) read from a list, a generator and a text file
+        # object; filters that drop one package in a hundred; the queries against the relation built by hand
+        import io as _io
+        lines, rel = [], set()
+        for i in range(4000):
+            tags = ["common::all", "grp::%d" % (i % 50)] + (["only::%d" % i] if i % 100 == 0 else [])
+            lines.append("pkg%04d: %s\n" % (i, ", ".join(tags)))
+            rel |= {("pkg%04d" % i, tg) for tg in tags}
+        text = "".join(lines)
+        for how, mk in (("list", lambda: lines), ("generator", lambda: (l for l in lines)), ("text file object", lambda: _io.StringIO(text))):
+            d = real.DB()
+            try:
+                d.read(mk())
+                views = {"the collection": (d, rel)}
+                keep = lambda p: int(p[3:]) % 100 != 0
+                views["filter_packages dropping 40 of 4000"] = (d.filter_packages(keep), {(p, tg) for p, tg in rel if keep(p)})
+                views["filter_packages_copy dropping 40 of 4000"] = (d.filter_packages_copy(keep), {(p, tg) for p, tg in rel if keep(p)})
+                for vname, (dd, r_) in views.items():
+                    a = {(p, tg) for p, ts in dd.db.items() for tg in ts}
+                    b = {(p, tg) for tg, ps in dd.rdb.items() for p in ps}
+                    t.case(key=("large", how, vname))
+                    if a != r_ or b != r_ or dd.tag_count() != len({tg for _, tg in r_}) or dd.package_count() != len({p for p, _ in r_}) \
+                            or dd.card("common::all") != len({p for p, tg in r_ if tg == "common::all"}) \
+                            or set(dd.iter_tags()) != {tg for _, tg in r_}:
+                        t.failed("a collection of 4000 packages is not the relation that was read", input_given_as=how, view=vname,
+                                 pairs_in_package_index=len(a), pairs_in_tag_index=len(b), pairs_expected=len(r_),
+                                 tag_count=dd.tag_count(), tags_expected=len({tg for _, tg in r_}))
+                        break
+            except Exception as e:
+                t.failed("reading / filtering a collection of 4000 packages raised %r" % (e,), input_given_as=how)
+            if t.fail:
+                break
     t.done()
     # (C) recorded findings, re-demonstrated on their specific histories
     for key, text, fails in known_finding_histories(real):
